@@ -5,6 +5,7 @@ CONSTANTS
   MaxW = 8
   FreshOnly = FALSE
   Ops = {"mset", "mget"}
+  AutoSimp = FALSE
   MapSpan = 6
   MapSrc = {1, 2}
   Rand = FALSE
